@@ -3,4 +3,5 @@ CONSTANTS MaxOps = 2
  Async = TRUE
 SPECIFICATION Spec
 INVARIANTS TypeOK FirstStartupOnlyInitially StartupOnceBeforeServing RestartCbBeforeNewInstance RestartCbPerAttempt ShutdownOnceAfterSuccess OnlyRestartFailedOnFailure FinalOnlyAtProcessShutdown WaitOnlyWhenAllStopped WgExact ListExact
+PROPERTY WaitEventuallyReturns
 CHECK_DEADLOCK FALSE
